@@ -676,7 +676,7 @@ def r_resolve_index(ctx, repo):
                 return ('ScalarToken' in names) if names else None
             return None
         starts = [m for t in scalar_edges for (m, lab) in pcfg.succ[t] if lab is True]
-        reach = A.cfg_reach_under(pcfg, atom, starts=starts)
+        reach = A.cfg_reach_under(pcfg, A.with_derived(atom, p.node), starts=starts)
         got = {tuple(x.value for x in n.ast.value.elts) for n in flag_nodes if n in reach}
         if got != {expect}:
             good = False
